@@ -131,6 +131,12 @@ def _weave_states_in_region(
                         )
                         rewriter.replace_op(op, new_op)
                         op = new_op
+                    elif accel not in state and op.in_state is not None:
+                        # nothing is known about the accelerator at this point (start of a region,
+                        # after an op with effects): an input state the op already names is stale
+                        new_op = accfg.SetupOp(op.values, op.param_names, op.accelerator)
+                        rewriter.replace_op(op, new_op)
+                        op = new_op
                     state[accel] = op.out_state
                 # special case for scf.if ops
                 elif isinstance(op, scf.IfOp):
